@@ -88,7 +88,11 @@ func genC05(t *rapid.T) c05Case {
 	liveSet := map[int]bool{}
 	for i := 0; i < n; i++ {
 		live := len(liveSet)
-		switch rapid.SampledFrom([]string{"est", "est", "estbad", "estbad", "modrej", "mod", "del", "strip"}).Draw(t, "k") {
+		switch rapid.SampledFrom([]string{"est", "est", "estbad", "estbad", "modrej", "mod", "del", "strip", "reassoc"}).Draw(t, "k") {
+		case "reassoc":
+			// the peer sets the association up again on the same connection under another Node ID (a control plane
+			// that restarted and now names itself by FQDN or by another address); its sessions are kept
+			c.Ops = append(c.Ops, model.Op{Kind: "assoc", Peer: 0, Seq: uint32(500 + i), NodeID: rapid.SampledFrom([]string{"smf.core.example", "172.31.0.77", "172.31.0.1"}).Draw(t, "newnode")})
 		case "strip":
 			// a modification that removes every PDR: the session lives on without PDRs
 			if sess == 0 {
@@ -171,6 +175,26 @@ func c05Invariant(r *Rig, run *sim.Runner, c c05Case, when string) error {
 	}
 	if int(g) != len(live) {
 		return fmt.Errorf("%s: pfcp_sessions gauge is %v but %d session(s) are live", when, g, len(live))
+	}
+	// the gauge is one series per Node ID: each session's unit sits in the series of the Node ID its peer had
+	// when the session was established, and leaves that series when the session ends
+	series, err := r.A.SessionsGaugeSeries()
+	if err != nil {
+		return fmt.Errorf("INFRA: gauge: %v", err)
+	}
+	wantSeries := map[string]float64{}
+	for _, s := range live {
+		wantSeries[s.NodeID]++
+	}
+	for l, v := range series {
+		if v != wantSeries[l] {
+			return fmt.Errorf("%s: pfcp_sessions{node_id=%q} is %v but %v live session(s) were established under that Node ID (all series: %v)", when, l, v, wantSeries[l], series)
+		}
+	}
+	for l, v := range wantSeries {
+		if series[l] != v {
+			return fmt.Errorf("%s: pfcp_sessions{node_id=%q} is %v but %v live session(s) were established under that Node ID (all series: %v)", when, l, series[l], v, series)
+		}
 	}
 	pools := r.A.Iface.VerifPools()
 	wantIP, wantTEID := 0, 0
